@@ -673,6 +673,27 @@ func (cfg *Config) wordFields(wps []syntax.WordPart) ([][]fieldPart, error) {
 		fields = append(fields, curField)
 		curField = nil
 	}
+	// A separator is a run of IFS whitespace holding at most one
+	// non-whitespace IFS character; every further non-whitespace IFS
+	// character delimits another (empty) field, as does one that is not
+	// preceded by any field, e.g. IFS=: splits "a::b" into "a", "", "b".
+	// sepRun: the current run of separator characters terminated a field;
+	// sepNonWS: that run already holds its non-whitespace character.
+	sepRun, sepNonWS := false, false
+	separator := func(r rune) {
+		ws := cfg.ifsWhitespace(r)
+		switch {
+		case len(curField) > 0:
+			flush()
+			sepRun, sepNonWS = true, !ws
+		case ws:
+		case sepRun && !sepNonWS:
+			sepNonWS = true
+		default:
+			fields = append(fields, []fieldPart{{}})
+			sepRun, sepNonWS = true, true
+		}
+	}
 	splitAdd := func(val string) {
 		fieldStart := -1
 		for i, r := range val {
@@ -681,16 +702,28 @@ func (cfg *Config) wordFields(wps []syntax.WordPart) ([][]fieldPart, error) {
 					curField = append(curField, fieldPart{val: val[fieldStart:i]})
 					fieldStart = -1
 				}
-				flush()
+				separator(r)
 			} else {
 				if fieldStart < 0 { // starting a new field
 					fieldStart = i
+					sepRun, sepNonWS = false, false
 				}
 			}
 		}
 		if fieldStart >= 0 { // ending a field without IFS
 			curField = append(curField, fieldPart{val: val[fieldStart:]})
 		}
+	}
+	// Unquoted list elements are split as if joined by the first IFS
+	// character, so with a non-whitespace one an empty element is a field.
+	// With an empty IFS nothing is split and elements stay separate.
+	elemBoundary := func() {
+		if cfg.ifs == "" {
+			flush()
+			return
+		}
+		r, _ := utf8.DecodeRuneInString(cfg.ifs)
+		separator(r)
 	}
 	for i, wp := range wps {
 		switch wp := wp.(type) {
@@ -772,7 +805,7 @@ func (cfg *Config) wordFields(wps []syntax.WordPart) ([][]fieldPart, error) {
 				// fields when IFS is empty.
 				for j, elem := range elems {
 					if j > 0 {
-						flush()
+						elemBoundary()
 					}
 					splitAdd(elem)
 				}
